@@ -16,7 +16,7 @@ from ..fa import FA
 from ..loader import AnalysisError
 from .valeq import check_typed_identity
 from .ladders import extract_ladder, check_ladder_order, repo_subclass_pairs
-from .c16 import (FlatInit, canon_conj, conds, ftext, is_copy_of, lit_expr, map_shape, origin, same_def, single_def, strip_cast, _ref_name)
+from .c16 import (FlatInit, canon_conj, conds, fexpand, ftext, is_copy_of, lit_expr, map_shape, origin, same_def, single_def, strip_cast, _ref_name)
 
 AH = "reference.ArgumentHasher"
 FRA = "reference.FunctionReferenceWithArguments"
@@ -56,6 +56,14 @@ def _type_names(fa, t):
                     v = mv
         if v is not None:
             return _type_names(fa, v)
+    if isinstance(t, ast.Attribute) and isinstance(t.value, ast.Name) and fa.fi.cls is not None \
+            and t.value.id in ("self", "cls", fa.fi.cls.name):
+        # a constant of the function's own class
+        vals = [st.value for st in fa.fi.cls.node.body
+                if (isinstance(st, ast.Assign) and any(isinstance(x, ast.Name) and x.id == t.attr for x in st.targets))
+                or (isinstance(st, ast.AnnAssign) and isinstance(st.target, ast.Name) and st.target.id == t.attr and st.value is not None)]
+        if len(vals) == 1 and isinstance(vals[0], ast.Tuple):
+            return _type_names(fa, vals[0])
     return {A.norm(t)}
 
 
@@ -1025,8 +1033,6 @@ def check(ck):
     if bek is not None:
         s0 = is_copy_of(bek.value)
         ok1 = s0 is not None and ftext(bfa, s0, bek.node) == REF + ".partial_kwargs"
-    ck.ob(R3, CE_Q + "::starts-from-partial-kwargs", ok1, "effective kwargs start from a copy of the partial kwargs" if ok1 else
-          "effective kwargs do not start from a copy of the reference's partial kwargs", where_ce)
 
     def is_ek(e, at):
         return bek is not None and same_def(origin(bfa, e, at), bek)
@@ -1092,9 +1098,27 @@ def check(ck):
                 odd.append((A.norm(c), ""))
         else:
             odd.append((A.short(s, 60), ""))
+    if not ok1 and bek is not None and A.norm(strip_cast(bek.value)) in ("{}", "dict()"):
+        # created empty and filled from the partial kwargs before anything else goes in
+        for m0 in kw_merge:
+            others = [ids for (s_, ids) in ek_muts if s_ is not m0[2]]
+            if ftext(bfa, m0[0], m0[1]) == REF + ".partial_kwargs" and all(bfa.cfg.must_pass([m0[1]], i) for ids in others for i in ids) \
+                    and not any(m0[1] in bfa.cfg.reach(ids, include_start=False) for ids in others):
+                ok1 = True
+                kw_merge = [m_ for m_ in kw_merge if m_ is not m0]
+                break
+    ck.ob(R3, CE_Q + "::starts-from-partial-kwargs", ok1, "effective kwargs start from a copy of the partial kwargs" if ok1 else
+          "effective kwargs do not start from a copy of the reference's partial kwargs", where_ce)
     self_args = ast.parse("self.args", mode="eval").body
     self_kwargs = ast.parse("self.kwargs", mode="eval").body
     pairs = set(odd)
+
+    def stext(e, at):
+        # the sequence an expression stands for, whatever order-preserving copy it is wrapped in (list(x), tuple(x))
+        x = strip_cast(fexpand(bfa, e, at))
+        while isinstance(x, ast.Call) and isinstance(x.func, ast.Name) and x.func.id in ("list", "tuple") and len(x.args) == 1 and not x.keywords:
+            x = strip_cast(x.args[0])
+        return A.norm(x)
     rem = None     # (names expression, node) of the binding of the call's positional arguments
     def unsliced(e):
         # a prefix of a sequence keeps its order: names[:n] binds like names
@@ -1106,12 +1130,12 @@ def check(ck):
 
     pos_bind = [(unsliced(N), unsliced(S), at, s) for (N, S, at, s) in pos_bind]
     for (N, S, at, s) in pos_bind:
-        nt, vt = ftext(bfa, N, at), ftext(bfa, S, at)
-        if vt == ftext(bfa, self_args, at):
+        nt, vt = stext(N, at), stext(S, at)
+        if vt == stext(self_args, at):
             rem = (N, at, s)
             nt = "<remaining>"
         pairs.add((nt, vt))
-    ok2 = rem is not None and pairs == {(REF + ".parameter_names", REF + ".partial_args"), ("<remaining>", ftext(bfa, self_args, rem[1]))}
+    ok2 = rem is not None and pairs == {(REF + ".parameter_names", REF + ".partial_args"), ("<remaining>", stext(self_args, rem[1]))}
     ck.ob(R3, CE_Q + "::positional-by-name", ok2, "partial and positional args are bound to parameter names in order" if ok2 else
           "positional arguments are not bound as result[names[i]] = values[i]: %s" % sorted(pairs), where_ce)
     # the names the call's positional arguments go to: the parameters not yet bound, in signature order
@@ -1155,7 +1179,7 @@ def check(ck):
         if isinstance(comp, (ast.ListComp, ast.GeneratorExp)) and len(comp.generators) == 1 and isinstance(comp.generators[0].target, ast.Name):
             g_ = comp.generators[0]
             tv = g_.target.id
-            ok3 = A.norm(comp.elt) == tv and ftext(bfa, g_.iter, cat) == REF + ".parameter_names" and len(g_.ifs) == 1 and unbound_test(g_.ifs[0], tv, cat)
+            ok3 = A.norm(comp.elt) == tv and stext(g_.iter, cat) == REF + ".parameter_names" and len(g_.ifs) == 1 and unbound_test(g_.ifs[0], tv, cat)
         elif rd is not None and A.norm(comp) in ("[]", "list()"):
             # for name in parameter_names: if name not in result: remaining.append(name)
             apps = [c for c in bfa.calls("append") if bfa.nodes(c) and A.call_recv(c) is not None and same_def(origin(bfa, A.call_recv(c), bfa.nodes(c)[0]), rd)]
@@ -1166,7 +1190,7 @@ def check(ck):
                 gi = bfa.enclosing(st, ast.If)
                 ok3 = isinstance(loop, ast.For) and isinstance(loop.target, ast.Name) and loop.target.id == tv and not loop.orelse \
                     and A.sig_stmts(loop.body) == [gi] and gi is not None and not gi.orelse and A.sig_stmts(gi.body) == [st] \
-                    and ftext(bfa, loop.iter, bfa.nodes(st)[0]) == REF + ".parameter_names" and unbound_test(gi.test, tv, bfa.nodes(st)[0])
+                    and stext(loop.iter, bfa.nodes(st)[0]) == REF + ".parameter_names" and unbound_test(gi.test, tv, bfa.nodes(st)[0])
                 cat = bfa.nodes(st)[0]
         # taken after the partial arguments are bound
         ok3 = ok3 and not any(pn in bfa.cfg.reach([c_], include_start=False) for c_ in [cat] + snap_nodes for pn in part_nodes if pn != c_)
